@@ -3,7 +3,7 @@ import PlaybackProofs.S3
 # C16 — S3 time-window lookup is exact
 
 Property theorems only; model `PlaybackModel/S3.lean`, helper lemmas `PlaybackProofs/S3.lean`.
-Time is a natural number of minutes, `day t = t / 1440`.  `dayStr` (`strftime('%Y%m%d')`) is a parameter assumed
+Time is a natural number of seconds, `day t = t / 86400`.  `dayStr` (`strftime('%Y%m%d')`) is a parameter assumed
 injective and slash-free; `glob` (fnmatch), the `random.choice` stream `ch` and `random.shuffle` (`shuf`, any permutation)
 are parameters too.  `Holds dayStr c b recs`: under the cassette's metadata root the bucket holds exactly one object per
 recording of `recs`, each created and saved at its own instant `r.t` (id `cat/dayStr (day t)/uid`, last-modified `t`).
@@ -82,9 +82,9 @@ theorem C16_none_outside (days : Nat → Nat → List Nat) (hinj : ∀ d d', day
 /-- Before the `fix:` commit (F7) the enumeration counted whole 24 h periods: with the window 23:00 → 01:00 (next day)
 the day of 00:30 is inside the window and is not enumerated … -/
 theorem C16_unfixed_counterexample :
-    let s := 0 * 1440 + 23 * 60
-    let e := 1 * 1440 + 1 * 60
-    let t := 1 * 1440 + 30
+    let s := 0 * 86400 + 23 * 3600
+    let e := 1 * 86400 + 1 * 3600
+    let t := 1 * 86400 + 1800
     s ≤ t ∧ t ≤ e ∧ day t ∉ prefixDaysUnfixed s e ∧ day t ∈ prefixDays s e := by decide
 
 /-- … so the recording saved at 00:30 was not returned by the lookup with that enumeration, for any bucket holding it,
@@ -93,11 +93,11 @@ theorem C16_unfixed_counterexample_listing (hinj : ∀ d d', dayStr d = dayStr d
     (hns : ∀ d, noChar '/' (dayStr d)) (c : Cfg) (b : Bucket) (recs : List TRec) (H : Holds dayStr c b recs)
     (hcat : ∀ r ∈ recs, noChar '/' r.cat) (cat : String) (hq : noChar '/' cat) (now : Nat) (random : Bool)
     (ch : Nat → Nat) (shuf : Bucket → Bucket) (hshuf : ∀ l, (shuf l).Perm l)
-    (hall : ∀ r ∈ recs, r.t = 1 * 1440 + 30) :
-    iterRecordingIds glob dayStr prefixDaysUnfixed c b cat (some (23 * 60)) (some (1 * 1440 + 60)) now [] none random
+    (hall : ∀ r ∈ recs, r.t = 1 * 86400 + 1800) :
+    iterRecordingIds glob dayStr prefixDaysUnfixed c b cat (some (23 * 3600)) (some (1 * 86400 + 3600)) now [] none random
       ch shuf = .ok [] := by
-  obtain ⟨l, hl, hmem⟩ := window_mem glob dayStr prefixDaysUnfixed hinj hns c b recs H hcat cat hq (23 * 60)
-    (some (1 * 1440 + 60)) now [] random ch shuf hshuf
+  obtain ⟨l, hl, hmem⟩ := window_mem glob dayStr prefixDaysUnfixed hinj hns c b recs H hcat cat hq (23 * 3600)
+    (some (1 * 86400 + 3600)) now [] random ch shuf hshuf
   rw [hl]
   congr 1
   apply List.eq_nil_iff_forall_not_mem.2
@@ -121,7 +121,7 @@ theorem C16_holds_after_saves (c : Cfg) (b0 : Bucket) (h0 : listPrefix b0 (metaR
 def exDayStr (d : Nat) : String := toString d
 
 /-- a bucket holding one recording saved at day 1, 00:30 (through the model's own save) -/
-def exRec : TRec := ⟨"Op", "u1", 1 * 1440 + 30, []⟩
+def exRec : TRec := ⟨"Op", "u1", 1 * 86400 + 1800, []⟩
 def exCfg : Cfg := mkCfg "p" false false
 def exBucket : Bucket :=
   applyMutations [("foreign/x", ⟨"1", [], 0⟩)] (saveSteps exCfg exRec.t ⟨exRec.id exDayStr, "data", exRec.md⟩)
